@@ -27,7 +27,15 @@ pub fn sheets() -> Vec<String> { vec!["Sheet1".to_string(), "Second Sheet".to_st
 pub fn defined_names() -> Vec<(String, Option<u32>, String)> {
     vec![("MyName".to_string(), None, "Sheet1!$A$1".to_string()), ("local_n".to_string(), Some(0), "Sheet1!$B$2:$B$3".to_string())]
 }
-pub fn ctx() -> CellReferenceRC { CellReferenceRC { sheet: "Sheet1".to_string(), row: CTX_ROW, column: CTX_COL } }
+/// the formula's cell: (CTX_ROW, CTX_COL) except while the boundary ranges are generated
+static CUR_ROW: std::sync::atomic::AtomicI32 = std::sync::atomic::AtomicI32::new(CTX_ROW);
+static CUR_COL: std::sync::atomic::AtomicI32 = std::sync::atomic::AtomicI32::new(CTX_COL);
+pub fn set_ctx(row: i32, col: i32) {
+    CUR_ROW.store(row, std::sync::atomic::Ordering::Relaxed);
+    CUR_COL.store(col, std::sync::atomic::Ordering::Relaxed);
+}
+pub fn cur_ctx() -> (i32, i32) { (CUR_ROW.load(std::sync::atomic::Ordering::Relaxed), CUR_COL.load(std::sync::atomic::Ordering::Relaxed)) }
+pub fn ctx() -> CellReferenceRC { let (row, column) = cur_ctx(); CellReferenceRC { sheet: "Sheet1".to_string(), row, column } }
 
 #[derive(Clone, Copy, PartialEq, Eq, Debug)]
 pub enum Form { Rc, En, Xl, Loc(usize, usize) } // Loc(locale index, language index)
@@ -85,6 +93,37 @@ fn classify(e: &Node, form: Form, assoc_explains: bool) -> Vec<String> {
         return vec!["named_function_lowercased".to_string()];
     }
     vec![format!("roundtrip_mismatch:{}", match form { Form::Loc(..) => "loc".to_string(), f => f.name() })]
+}
+
+fn range_fields(e: &Node) -> Option<(i32, i32, bool, bool, i32, i32, bool, bool)> {
+    match e {
+        Node::RangeKind { row1, column1, absolute_row1, absolute_column1, row2, column2, absolute_row2, absolute_column2, .. }
+        | Node::WrongRangeKind { row1, column1, absolute_row1, absolute_column1, row2, column2, absolute_row2, absolute_column2, .. } =>
+            Some((*row1, *column1, *absolute_row1, *absolute_column1, *row2, *column2, *absolute_row2, *absolute_column2)),
+        Node::FunctionKind { args, .. } if args.len() == 1 => range_fields(&args[0]),
+        _ => None,
+    }
+}
+/// a range the A1 parser can return from the cell (crow, ccol): both corners on the grid, in order,
+/// and not the whole sheet ($A$1:$XFD$1048576 prints as a bare ":", finding C22-F43)
+fn range_in_a1_image(e: &Node, crow: i32, ccol: i32) -> bool {
+    let (r1, c1, ar1, ac1, r2, c2, ar2, ac2) = match range_fields(e) { Some(x) => x, None => return false };
+    let pos = |v: i32, a: bool, c: i32| if a { v as i64 } else { v as i64 + c as i64 };
+    let (pr1, pr2, pc1, pc2) = (pos(r1, ar1, crow), pos(r2, ar2, crow), pos(c1, ac1, ccol), pos(c2, ac2, ccol));
+    let whole_sheet = ar1 && ar2 && ac1 && ac2 && r1 == 1 && c1 == 1 && r2 == 1048576 && c2 == 16384;
+    pr1 >= 1 && pr2 <= 1048576 && pr1 <= pr2 && pc1 >= 1 && pc2 <= 16384 && pc1 <= pc2 && !whole_sheet
+}
+/// the "FR" case: does the implementation's English A1 text omit the row numbers / the column letters?
+fn full_range_case(e: &Node) -> Option<(String, String)> {
+    let (r1, c1, ar1, ac1, r2, c2, ar2, ac2) = range_fields(e)?;
+    if !matches!(e, Node::RangeKind { .. } | Node::WrongRangeKind { .. }) { return None; }
+    let text = print_form(e, Form::En);
+    if text.contains('#') { return None; }
+    let body = match text.rfind('!') { Some(i) => &text[i + 1..], None => &text[..] };
+    let left = body.split(':').next().unwrap_or("");
+    let rows_omitted = !left.chars().any(|ch| ch.is_ascii_digit());
+    let cols_omitted = !left.chars().any(|ch| ch.is_ascii_alphabetic());
+    Some((format!("FR {r1} {c1} {} {} {r2} {c2} {} {}", b(ar1), b(ac1), b(ar2), b(ac2)), format!("{} {}", b(rows_omitted), b(cols_omitted))))
 }
 
 /// a colon operator whose operands the lexer would merge even inside parentheses: "(A1:B2)"
@@ -148,13 +187,13 @@ impl<'a> Run<'a> {
             bad_pairs(e, form == Form::Xl, &mut pairs);
             let (formname, lang) = match form { Form::Rc => ("rc", "en"), Form::En => ("a1", "en"), Form::Xl => ("xl", "en"), Form::Loc(_, g) => ("a1", LANGS[g]) };
             self.cs.case(
-                &format!("C {} {} {} {} {} {}", formname, b(form.dot()), lang, CTX_ROW, CTX_COL, d),
+                &format!("C {} {} {} {} {} {}", formname, b(form.dot()), lang, cur_ctx().0, cur_ctx().1, d),
                 &format!("{} | {} | bad={}", toks.join(" "), dump_s(&back, fns), pairs.join(",")),
             );
             self.tie_cases += 1;
         }
         // ---- the parser-image predicate of the model against "parse(fully parenthesised text) = tree"
-        if form == Form::En {
+        if form == Form::En && cur_ctx() == (CTX_ROW, CTX_COL) {
             let glued = glue_class_any(e);
             if !glued {
                 self.cs.case(&format!("I {d}"), b(parse_form(&e2e::full_paren(e), Form::En) == *e));
@@ -244,6 +283,24 @@ fn main() {
     // leaves of every kind on their own and as arguments
     let leaves = g.leaf_cases();
     for e in &leaves { for f in forms_for(true, a.thorough) { run.one(e, f, "leaves"); } }
+    // range literals on the boundary grid: stored value 1, 2, LAST-1, LAST x absolute / relative for each
+    // of row1, column1, row2, column2 (the whole-row / whole-column tests of stringify compare STORED
+    // fields), from formula cells at A1, B2, C3 and at the edges of the grid
+    let mut fr_seen: HashSet<String> = HashSet::new();
+    let mut nbound = 0u64;
+    for (crow, ccol) in [(1, 1), (2, 2), (3, 3), (1048576, 16384), (1048575, 16383), (1, 16384), (1048576, 1)] {
+        set_ctx(crow, ccol);
+        for e in g.boundary_ranges(crow, ccol) {
+            nbound += 1;
+            for f in [Form::Rc, Form::En, Form::Xl, all_pairs[(nbound % 30) as usize]] {
+                if f == Form::Rc || range_in_a1_image(&e, crow, ccol) { run.one(&e, f, "boundary-ranges"); }
+            }
+            if range_in_a1_image(&e, crow, ccol) {
+                if let Some((line, obs)) = full_range_case(&e) { if fr_seen.insert(line.clone()) { run.cs.case(&line, &obs); } }
+            }
+        }
+    }
+    set_ctx(CTX_ROW, CTX_COL);
     // (b) random trees to depth 7
     let nrand = if a.thorough { 120_000 } else { 4_000 };
     for i in 0..nrand {
@@ -273,6 +330,6 @@ fn main() {
         "samples": samples,
         "tie_cases": tie_cases,
         "e2e": e2e_stats,
-        "pairs": pairs.len(), "triples": triples.len(), "leaves": leaves.len(), "random": nrand,
+        "pairs": pairs.len(), "triples": triples.len(), "leaves": leaves.len(), "random": nrand, "boundary_ranges": nbound,
     }));
 }
